@@ -92,8 +92,17 @@ class Actor(object):
         pass
 
 
+# replay / minimisation plumbing: decision traces are forced and captured per simulator seed
+FORCED = None        # dict seed -> list of decisions, or None
+CAPTURE = None       # dict seed -> Sim, filled when not None
+
+
 class Sim(object):
     def __init__(self, seed, trace=None, policy='random'):
+        if trace is None and FORCED is not None and str(seed) in FORCED:
+            trace = FORCED[str(seed)]
+        if CAPTURE is not None:
+            CAPTURE[str(seed)] = self
         self.seed = seed
         self.now = 1000.0            # virtual epoch (non-zero: Timer tests `_start_time` truthiness)
         self.tasks = []
